@@ -528,6 +528,31 @@ __CPROVER_ensures(input_len > 1024 ==> __CPROVER_return_value >= 2)
 __CPROVER_ensures(VERIF_GCPU_OK)
 ;
 
+#if defined(BLAKE3_USE_TBB)
+/* ASSUMED (blake3_tbb.cpp is C++ and not analysed): the frame and shape the C side relies on at
+ * the oneTBB join seam -- both halves are hashed as by blake3_compress_subtree_wide, each into its
+ * own 16-CV window of the caller's cv_array (the two windows lie in ONE object, hence w_ok), and
+ * only the windows, *l_n and *r_n are written. */
+void blake3_compress_subtree_wide_join_tbb(const uint32_t key[8], uint8_t flags, bool use_tbb,
+                                           const uint8_t *l_input, size_t l_input_len,
+                                           uint64_t l_chunk_counter, uint8_t *l_cvs, size_t *l_n,
+                                           const uint8_t *r_input, size_t r_input_len,
+                                           uint64_t r_chunk_counter, uint8_t *r_cvs, size_t *r_n)
+__CPROVER_requires(__CPROVER_r_ok(key, 32))
+__CPROVER_requires(0 < l_input_len && l_input_len <= VERIF_MAX_OBJ && __CPROVER_r_ok(l_input, l_input_len))
+__CPROVER_requires(0 < r_input_len && r_input_len <= VERIF_MAX_OBJ && __CPROVER_r_ok(r_input, r_input_len))
+__CPROVER_requires(__CPROVER_w_ok(l_cvs, 32 * MAX_SIMD_DEGREE_OR_2) && __CPROVER_w_ok(r_cvs, 32 * MAX_SIMD_DEGREE_OR_2))
+__CPROVER_requires(__CPROVER_w_ok(l_n, sizeof(size_t)) && __CPROVER_w_ok(r_n, sizeof(size_t)))
+__CPROVER_requires(VERIF_GCPU_OK)
+__CPROVER_assigns(__CPROVER_object_upto(l_cvs, 512), __CPROVER_object_upto(r_cvs, 512), *l_n, *r_n,
+                  g_cpu_features)
+__CPROVER_ensures(1 <= *l_n && *l_n <= MAX_SIMD_DEGREE_OR_2 && 1 <= *r_n && *r_n <= MAX_SIMD_DEGREE_OR_2)
+__CPROVER_ensures((l_input_len <= 1024 ==> *l_n == 1) && (l_input_len > 1024 ==> *l_n >= 2))
+__CPROVER_ensures((r_input_len <= 1024 ==> *r_n == 1) && (r_input_len > 1024 ==> *r_n >= 2))
+__CPROVER_ensures(VERIF_GCPU_OK)
+;
+#endif
+
 /* more than one chunk in, exactly the two top CVs (64 bytes) out */
 static inline void compress_subtree_to_parent_node(const uint8_t *input, size_t input_len,
                                                    const uint32_t key[8], uint64_t chunk_counter,
@@ -636,6 +661,12 @@ HASHER_UPDATE_CONTRACT
 void blake3_hasher_update(blake3_hasher *self, const void *input, size_t input_len)
 HASHER_UPDATE_CONTRACT
 ;
+
+#if defined(BLAKE3_USE_TBB)
+void blake3_hasher_update_tbb(blake3_hasher *self, const void *input, size_t input_len)
+HASHER_UPDATE_CONTRACT
+;
+#endif
 
 /* finalize: the hasher is not in the assigns clause (finalize is a pure query of it);
  * exactly out[0..out_len) is written; with out_len == 0 nothing is even required to be
